@@ -10,21 +10,36 @@ mod vt;
 use serde_json::json;
 use std::io::Write;
 
+const EDGE_FIRST: [usize; 8] = [0, 1, 2, 3, 4, 5, 6, 8];
 /// OSC with a payload around the fixed-buffer limit: 1000..1100 payload bytes and 0..20 separators
-fn gen_big_osc(r: &mut rng::Rng, out: &mut Vec<u8>) {
+fn gen_big_osc(r: &mut rng::Rng, out: &mut Vec<u8>, k: usize) {
     out.extend_from_slice(b"\x1b]");
-    let payload = r.range(1000, 1100);
+    let payload = if EDGE_FIRST.contains(&(k % 9)) { r.range(1030, 1100) } else { r.range(1000, 1100) };
     let seps = *r.pick(&[0usize, 1, 2, 5, 14, 15, 16, 16, 17, 18, 20]);
     let mut sep_at: Vec<usize> = (0..seps).map(|_| r.below(payload + seps)).collect();
     if r.chance(1, 3) {
         // separators crowded around the limit
         sep_at = (0..seps).map(|_| r.range(1015, 1035).min(payload + seps - 1)).collect();
     }
+    // the byte that arrives when the fixed buffer is exactly full (and its neighbours) is each kind of payload byte in turn:
+    // DEL, a separator, the first and the last printable
+    const EDGES: [Option<(usize, u8)>; 9] = [Some((1024, 0x7f)), Some((1023, 0x7f)), Some((1024, b';')), Some((1025, 0x7f)), Some((1023, b';')),
+        Some((1022, 0x7f)), Some((1025, b';')), None, Some((1024, 0x7e))];
+    let edge = EDGES[k % 9];
+    if edge.is_some() {
+        sep_at.clear();
+    }
     for i in 0..(payload + seps) {
+        if let Some((at, x)) = edge {
+            if i == at {
+                out.push(x);
+                continue;
+            }
+        }
         if sep_at.contains(&i) {
             out.push(b';');
         } else {
-            out.push(r.range(0x20, 0x7e) as u8);
+            out.push(r.range(0x20, 0x7f) as u8);
             if *out.last().unwrap() == b';' {
                 *out.last_mut().unwrap() = b'x';
             }
@@ -52,7 +67,7 @@ fn main() {
             for s in 0..streams {
                 let mut input = gen::gen_stream(&mut r, target, gen::Flavor::SevenBit);
                 if s % 2 == 0 {
-                    gen_big_osc(&mut r, &mut input);
+                    gen_big_osc(&mut r, &mut input, ((seed % 100) * streams + s) as usize / 2);
                     // what follows an oversize string must be unaffected: an ordinary OSC, then more grammar
                     input.extend_from_slice(b"\x1b]0;title;x\x07ok\x1b]2;b\x1b\\");
                     let tail = gen::gen_stream(&mut r, 60, gen::Flavor::SevenBit);
